@@ -357,6 +357,11 @@ def ref_agree(tbl, ref, single, zero_sign=False):
         want, _, sc = want.partition("~")
         if want == "?" or k not in t or t[k] in ("E", "?"):
             continue
+        if want == "big":                     # "a large finite number" (nan_to_num of an infinity)
+            g = _tokval(t[k])
+            if g is None or math.isnan(g) or math.isinf(g) or abs(g) < (1e38 if single else 1e300):
+                return False
+            continue
         w, g = _tokval(want), _tokval(t[k])
         sc = _tokval(sc) if sc else None
         if g is None or w is None:
